@@ -55,6 +55,18 @@ def d4_listed(ck):
                for f in ck.findings.get("findings", []))
 
 
+def listed(ck, fid):
+    return any(isinstance(f, dict) and f.get("id") == fid and f.get("property") == "C06"
+               for f in ck.findings.get("findings", []))
+
+
+KT1_WHAT = ("cumulative ACK dropped after a go-back-N rewind (KT1): check_retx rewinds snd_nxt to snd_una, segment_one re-sends "
+            "only what the window allows, and an ACK covering bytes sent before the rewind (acked > snd_nxt - snd_una) is "
+            "discarded by handle_established - the sender retransmits the same bytes until it aborts with TimedOut "
+            "[family Dev_AckBeyondRewind, kernel/tcp.rs handle_established ACK branch / check_retx: no SND.MAX]")
+TOLERANT2 = ["PrefixInv", "EofOnlyAtEnd", "AbortOrKnown2", "ProgressOrKnown2", "AcceptOffered"]
+
+
 def consts(**kw):
     c = dict(MaxP=1, Mss=1, SendCap=2, RecvCap=2, Backlog=1, RetxT=3, RetxMax=2, PremD=1, PremAge=0,
              WriteSizes={2}, ReadSizes={1, 2}, MaxBytes=2, MaxAge=0, MaxDrops=1,
@@ -245,6 +257,10 @@ def random_configs(pid, tier, seed):
         # receive cap below one MSS, first burst above the cap, pure ACKs lost, idle reader
         base.append(dict(c=consts(MaxP=1, Mss=4, SendCap=8, RecvCap=3, Backlog=1, RetxT=3, RetxMax=3, PremD=1), mode="overlap", nconn=1,
                          maxdrops=3, maxage=0, maxbytes=8, wmax=8, rmax=2, steps=0))
+        # window shrink: burst above the acceptor's cap on the SYN-ACK window, ACKs shrink the window below what is in
+        # flight, new data is written before the retransmit timer rewinds
+        base.append(dict(c=consts(MaxP=1, Mss=2, SendCap=6, RecvCap=2, Backlog=1, RetxT=4, RetxMax=2, PremD=0), mode="shrink", nconn=1,
+                         maxdrops=0, maxage=0, maxbytes=12, wmax=3, rmax=2, steps=0))
         # the connector host also holds a loopback connection (created first) with pending data
         base.append(dict(c=consts(MaxP=2, Mss=4, SendCap=16, RecvCap=16, Backlog=1), mode="lomss", nconn=1, maxdrops=0, maxage=0,
                          maxbytes=100, wmax=12, rmax=16, steps=0, prop_only=1))
@@ -286,8 +302,8 @@ def run_prop_trace(pid, path, c, tag, invs=None):
     return r
 
 
-def run_impl_trace(pid, path, c, tag):
-    cfg = cfg_text("TSpec", trace_consts(c), TOLERANT[pid] + ["ImplInv"], post="Accepted")
+def run_impl_trace(pid, path, c, tag, invs=None):
+    cfg = cfg_text("TSpec", trace_consts(c), (invs or TOLERANT[pid]) + ["ImplInv"], post="Accepted")
     r = vlib.run_tlc(SUB, "KTcpTrace", cfg, tag + "_impl", workers=1, env={"TRACE": os.path.abspath(path)},
                      dfs=True, heap="4g", timeout=1500)
     if r.error or r.timed_out:
@@ -353,6 +369,22 @@ def stop_index(r):
     return max(r.depth - 1, 1) if r.depth else 1
 
 
+def attribute(ck, pid, path, c, tag, ir, known_state):
+    """A liveness rejection by the PropSpec: is it an instance of a listed family? ir = fidelity run with the
+    D4-tolerant invariants. Returns True (and records the family) or False."""
+    if not rejected(ir):
+        if d4_listed(ck):
+            known_state["d4"] = True
+            return True
+        return False
+    if pid == "C06" and listed(ck, "KT1") and ir.violated in ("AbortOrKnown", "ProgressOrKnown"):
+        ir2 = run_impl_trace(pid, path, c, tag + "_kt1", TOLERANT2)
+        if not rejected(ir2):
+            known_state["kt1"] = True
+            return True
+    return False
+
+
 def judge_trace(ck, pid, path, c, tag, payload, known_state, impl=True):
     """Verdict + fidelity for one recorded trace file (possibly many runs).
     Returns (prop_ok, drift). impl=False: scenario outside the ImplSpec (loopback sockets), verdict only."""
@@ -372,11 +404,10 @@ def judge_trace(ck, pid, path, c, tag, payload, known_state, impl=True):
                 f"the PropSpec accepted it (drift, no alarm)")
             return True, 1
         return True, 0
-    if pr.violated in FAMILY_CLAUSES[pid] and d4_listed(ck):
-        if not rejected(ir):
-            # the code did exactly what the model of the defective algorithm does and a Dev_*
-            # predicate of the recorded family held where the PropSpec objects
-            known_state["d4"] = True
+    if pr.violated in FAMILY_CLAUSES[pid] and (d4_listed(ck) or listed(ck, "KT1")):
+        # the code did exactly what the model of the defective algorithm does and a Dev_*
+        # predicate of a recorded family held where the PropSpec objects?
+        if attribute(ck, pid, path, c, tag, ir, known_state):
             return True, 0
         # cannot be attributed wholesale: isolate the runs
         return judge_runs(ck, pid, path, c, tag, payload, known_state)
@@ -401,8 +432,8 @@ def judge_runs(ck, pid, path, c, tag, payload, known_state, limit=6):
         p1 = run_prop_trace(pid, one, c, f"{tag}_o{it}")
         i1 = run_impl_trace(pid, one, c, f"{tag}_o{it}")
         if rejected(p1):
-            if p1.violated in FAMILY_CLAUSES[pid] and not rejected(i1) and d4_listed(ck):
-                known_state["d4"] = True
+            if p1.violated in FAMILY_CLAUSES[pid] and attribute(ck, pid, one, c, f"{tag}_o{it}", i1, known_state):
+                pass
             else:
                 ck.violation(dict(payload, run_events=[json.loads(x) for x in runs[k]][:400],
                                   violated_clause=p1.violated, unmatched=p1.unmatched,
@@ -527,9 +558,11 @@ def run(pid, tier, seed, replay=None):
                 + (" (the recorded finding no longer reproduces)" if rp.get("finding") else ""))
             continue
         ir = run_impl_trace(pid, tp, c, f"{pid}_corpus")
-        if rp.get("finding") == "D4" and d4_listed(ck) and pr.violated in FAMILY_CLAUSES[pid] and not rejected(ir):
+        ks2 = {}
+        if (rp.get("finding") and pr.violated in FAMILY_CLAUSES[pid] and attribute(ck, pid, tp, c, f"{pid}_corpus", ir, ks2)
+                and ((rp["finding"] == "D4" and ks2.get("d4")) or (rp["finding"] == "KT1" and ks2.get("kt1")))):
             ck.known(rp["finding"], f"{pr.violated}: {rp['what']} (witness corpus/{os.path.basename(cf)})")
-            known_state["printed"] = True
+            known_state["printed_" + rp["finding"]] = True
             continue
         log(f"[{pid}] corpus {os.path.basename(cf)}: REJECTED ({pr.violated or pr.unmatched})")
         ck.violation(dict(kind="labels", property=pid, consts=rp["consts"], labels=rp["labels"], corpus=os.path.basename(cf),
@@ -566,8 +599,10 @@ def run(pid, tier, seed, replay=None):
     if pid == "C13":
         portwrap_scenario(ck, w)
 
-    if known_state.get("d4") and not known_state.get("printed"):
+    if known_state.get("d4") and not known_state.get("printed_D4"):
         ck.known("D4", D4_WHAT + " (reproduced in a recorded random walk)")
+    if known_state.get("kt1") and not known_state.get("printed_KT1"):
+        ck.known("KT1", KT1_WHAT + " (reproduced in a recorded random walk)")
 
     # binding demonstration: a corrupted trace must be rejected ----------------
     tpath = os.path.join(w, "random_0.ndjson")
